@@ -49,6 +49,8 @@ def run(case):
             viol.append(('C13.2', 'non-preemptive service: ' + msg))
     if case.get('empty_packets'):
         stats['empty_packets'] = 1
+    if getattr(H, 'rate2_busy', False):
+        viol = []          # the rate changed in mid busy period: no verdict from this run (see sched.parse)
     viol += sched.twin_check(r, case, ID, stats)
     res = {'viol': viol, 'digest': digest_of(r.w.log), 'nontrivial': bool(stats.get('ge2_levels_backlogged')),
            'stats': stats, 'simtime': float(r.w.env.now), 'steps': r.w.steps}
